@@ -22,7 +22,7 @@ DECIDES = (
     ' the arccos arguments of the angle terms cannot leave [-1, 1] by rounding (C14.TRIG-DOMAIN); the kernels combine only differences of points - no position used as a vector, no component picked from a vector (C14.SHAPE-ONLY); the per-side loop is not left early (part of C14.UNIFORM).'
     ' Derived per-face arrays are used as closed cycles (np.roll), never as open chains or single rows (part of C14.FACE-SYMMETRY); nothing computed per side is used after the per-side loop (part of C14.UNIFORM).'
 )
-NOT_DECIDED = "invariance under rigid motion and uniform scaling, monotonicity under stretching (floating-point numerics)."
+NOT_DECIDED = "invariance under rigid motion and uniform scaling as numbers (floating-point numerics); the size of the rise under stretching."
 ASSUMPTIONS = []
 
 
@@ -162,6 +162,34 @@ def uniform(repo: Repo) -> RuleRun:
             "depends on the numbering, and the contributions of the other sides are lost",
             after[0] if after else lp,
             key="per-side-loop:stale",
+        )
+        # the index of a side in THIS cell's tables addresses this cell only: the neighbour numbers its sides in its own way
+        # (the shared face is 'top' here and 'bottom' - or anything - there)
+        own_index = derived - loopvars
+        foreign = []
+        for c in ast.walk(lp):
+            if isinstance(c, ast.Call) and isinstance(c.func, ast.Attribute):
+                recv = c.func.value
+                root = recv
+                while isinstance(root, (ast.Attribute, ast.Subscript, ast.Call)):
+                    root = root.value if not isinstance(root, ast.Call) else root.func
+                if isinstance(root, ast.Name) and root.id not in ("self", "np", "numpy", "f", "math") and root.id in loopvars | {t.id for st in ast.walk(lp) if isinstance(st, ast.Assign) for t in st.targets if isinstance(t, ast.Name)}:
+                    if any(isinstance(a, ast.Name) and a.id in own_index for a in [*c.args, *[k.value for k in c.keywords]]):
+                        foreign.append(c)
+            if isinstance(c, ast.Subscript) and isinstance(c.slice, ast.Name) and c.slice.id in own_index:
+                root = c.value
+                while isinstance(root, (ast.Attribute, ast.Subscript)):
+                    root = root.value
+                if isinstance(root, ast.Name) and root.id in loopvars:
+                    foreign.append(c)
+        r.check(
+            not foreign,
+            q,
+            "this cell's side index is applied to this cell only",
+            f"CellBase.quality applies the index of a side in this cell's own tables to another cell ('{ast.unparse(foreign[0])[:60] if foreign else ''}'): the neighbour numbers its sides independently, "
+            "so which of its sides is addressed depends on how the two blocks happen to be oriented - the value changes under renumbering",
+            foreign[0] if foreign else lp,
+            key="per-side-loop:own-index",
         )
         exits = [e for e in loop_early_exits(lp) if not isinstance(e, ast.Raise)]
         exits += [n for n in ast.walk(lp) if isinstance(n, ast.Continue) and not any(isinstance(a, (ast.For, ast.While)) and a is not lp and any(x is n for x in ast.walk(a)) for a in ast.walk(lp))]
@@ -307,4 +335,113 @@ def shape_only(repo: Repo) -> RuleRun:
 
 shape_only.rule_id = "C14.SHAPE-ONLY"
 
-RULES = [edge_set, side_table, uniform, face_symmetry, no_stale_cache, trig_domain, shape_only]
+def stretch_monotone(repo: Repo) -> RuleRun:
+    """'Stretching a cube into a longer box never lowers the value': the box keeps all its right angles, so only the aspect-ratio
+    term changes - the longest edge grows, the shortest does not. The term is followed through the monotonicity domain
+    (sa/monotone.py): with max(edge lengths) non-decreasing and min(edge lengths) non-increasing it must be non-decreasing.
+    The direction the box is stretched in does not enter: the term sees only max and min of ALL edges (C14.EDGE-SET)."""
+    from .. import monotone, tolerance
+    from ..monotone import Mono
+
+    r = RuleRun(PROP, "C14.STRETCH-MONOTONE", floor=1, what="the aspect-ratio term of quality is a non-decreasing function of (longest edge up, shortest edge down): monotonicity of the expression chain max/min -> ratio -> log -> penalty")
+    q = repo.func("optimize.cell.CellBase.quality")
+    funcs = {n.name: n for n in ast.walk(q.node) if isinstance(n, ast.FunctionDef) and n is not q.node}
+    env = {}
+    lengths = set()
+
+    def fold(e):
+        return tolerance.fold(repo, q.module, e)
+
+    def stmts(body):
+        for st in body:
+            if isinstance(st, (ast.For, ast.While, ast.FunctionDef)):
+                continue
+            if isinstance(st, ast.Try):
+                yield from stmts(st.body)
+                continue
+            if isinstance(st, (ast.If, ast.With)):
+                yield from stmts(st.body)
+                continue
+            yield st
+
+    # the accumulator is whatever the property returns
+    rets = [n for n in walk_shallow(q.node) if isinstance(n, ast.Return) and n.value is not None]
+    r.require(len(rets) == 1, "CellBase.quality: exactly one 'return <value>' expected")
+    acc = rets[0].value.id if isinstance(rets[0].value, ast.Name) else None
+    if acc is not None and acc.startswith("_"):
+        # returned through a temporary: 'tmp = quality; return tmp'
+        for n in walk_shallow(q.node):
+            if isinstance(n, ast.Assign) and len(n.targets) == 1 and isinstance(n.targets[0], ast.Name) and n.targets[0].id == acc and isinstance(n.value, ast.Name):
+                acc = n.value.id
+    r.require(acc is not None, "CellBase.quality does not return a named accumulator")
+    terms = []
+    for st in stmts(q.node.body):
+        value = target = None
+        if isinstance(st, ast.Assign) and len(st.targets) == 1 and isinstance(st.targets[0], ast.Name):
+            target, value = st.targets[0].id, st.value
+        elif isinstance(st, ast.AugAssign) and isinstance(st.target, ast.Name) and isinstance(st.op, ast.Add):
+            target, value = st.target.id, st.value
+            if target == acc:
+                if any(isinstance(n, ast.Name) and n.id in env for n in ast.walk(value)):
+                    terms.append((st, monotone.evaluate(value, env, funcs, fold)))
+                continue
+        if target is None or value is None:
+            continue
+        if isinstance(value, ast.Call) and (attr_chain(value.func) or "").endswith("get_edge_lengths"):
+            lengths.add(target)
+            continue
+        if isinstance(value, ast.Call) and value.args and isinstance(value.args[0], ast.Name) and value.args[0].id in lengths:
+            nm = (attr_chain(value.func) or "").split(".")[-1]
+            if nm in ("max", "amax"):
+                env[target] = Mono(1, "pos")
+                continue
+            if nm in ("min", "amin"):
+                env[target] = Mono(-1, "nonneg")
+                continue
+        if any(isinstance(n, ast.Name) and (n.id in env or n.id in lengths) for n in ast.walk(value)):
+            inner = value
+            # min(edge_lengths) + VSMALL written in one expression
+            sub_env = dict(env)
+            for c in ast.walk(value):
+                if isinstance(c, ast.Call) and c.args and isinstance(c.args[0], ast.Name) and c.args[0].id in lengths:
+                    nm = (attr_chain(c.func) or "").split(".")[-1]
+                    if nm in ("max", "amax", "min", "amin"):
+                        key = f"__{nm}_{c.lineno}_{c.col_offset}"
+                        sub_env[key] = Mono(1, "pos") if nm in ("max", "amax") else Mono(-1, "nonneg")
+                        inner = _replace(inner, c, ast.Name(id=key, ctx=ast.Load()))
+            got = monotone.evaluate(inner, sub_env, funcs, fold)
+            if target == acc and isinstance(st, ast.Assign):
+                terms.append((st, got))
+            else:
+                env[target] = got
+    r.require(bool(terms), "CellBase.quality: no term of the sum depends on max/min of get_edge_lengths() (aspect-ratio term not found)")
+    for i, (st, got) in enumerate(terms):
+        if got.dir is None:
+            raise AnalysisError(f"CellBase.quality: direction of '{ast.unparse(st)[:80]}' under stretching cannot be derived in the monotonicity domain")
+        r.check(
+            got.dir == 1,
+            q,
+            f"'{ast.unparse(st)[:70]}' is non-decreasing when the longest edge grows and the shortest does not",
+            f"CellBase.quality: the term '{ast.unparse(st)[:80]}' is {monotone.describe(got)} when the longest edge grows and the shortest one does not: stretching a cube into a longer box "
+            + ("LOWERS the value - the optimizer is rewarded for elongated cells" if got.dir == -1 else "does not change the value - elongated cells are not penalised"),
+            st,
+            key=f"aspect-term#{i}",
+        )
+    return r
+
+
+def _replace(root: ast.expr, old: ast.AST, new: ast.expr) -> ast.expr:
+    import copy
+
+    class T(ast.NodeTransformer):
+        def visit(self, node):
+            if node is old:
+                return new
+            return self.generic_visit(copy.copy(node))
+
+    return T().visit(root)
+
+
+stretch_monotone.rule_id = "C14.STRETCH-MONOTONE"
+
+RULES = [edge_set, side_table, uniform, face_symmetry, no_stale_cache, trig_domain, shape_only, stretch_monotone]
